@@ -163,8 +163,10 @@ def run(spec, case, containers, fault_pos=None, ctx=None):
                 with sut(detector=name, allow=(Exception,)):
                     do_call(spec, det, obj, i == 0, base + min(i, len(items) - 1))
                 outcome = "accepted"
-            except ValueError:
+            except ValueError as e:
                 outcome = "ValueError"
+                if (name == "CUSUM" and "Standard deviation is 0" in str(e)) or (name == "PCACD" and "bandwidth" in str(e)):
+                    outcome = "domain-end"  # the detector's own documented refusal of degenerate data, not input validation
             except Exception as e:  # noqa
                 outcome = "other:" + type(e).__name__ + ":" + str(e)[:80]
             if outcome != "ValueError":
@@ -262,6 +264,9 @@ def check_fault(case, ctx):
         return
     t_fault, outcome = run(spec, case, containers, fault_pos=f["pos"])
     fdesc = f"{f['kind']}/{f.get('container', '')} at position {f['pos']} of {len(items)} (containers before: {containers[: f['pos']]})"
+    if outcome == "domain-end":
+        ctx.label("fault-after-truncation")
+        return
     if legal:
         ctx.label("not-a-fault")
         if outcome != "accepted":
